@@ -381,7 +381,20 @@ def case_tile_fits(spec, workdir, R, rng):
     iset = next(ET.parse(os.path.join(out, "index_rel.wtml")).getroot().iter("ImageSet"))
     if not close(float(iset.get("DataMin", 0)), lo) or not close(float(iset.get("DataMax", 0)), hi):
         probs.append("WTML DataMin/DataMax = %s/%s, full-resolution range %r/%r" % (iset.get("DataMin"), iset.get("DataMax"), lo, hi))
-    res = dict(counters=dict(pyramids=1, headers_checked=n, wtml_checked=1, writer_tile_fits=1), nontrivial=True, sample=dict(spec=spec, depth=depth, root_range=[lo, hi]))
+    # the same call again on the finished directory (no override): the pyramid is reused; the description that comes back, and a
+    # WTML written from it, still carry the full-resolution range
+    reuses = 0
+    if True:
+        od2, b2 = toasty.tile_fits(paths, out_dir=out, parallel=spec["par"], override=False, cli_progress=False)
+        reuses = 1
+        if b2 is None or not close(b2.imgset.data_min, lo) or not close(b2.imgset.data_max, hi):
+            probs.append("reused directory: returned ImageSet.data_min/max = %r/%r, full-resolution range %r/%r" % (getattr(getattr(b2, "imgset", None), "data_min", None), getattr(getattr(b2, "imgset", None), "data_max", None), lo, hi))
+        if b2 is not None:
+            b2.write_index_rel_wtml()
+            iset = next(ET.parse(os.path.join(out, "index_rel.wtml")).getroot().iter("ImageSet"))
+            if not close(float(iset.get("DataMin", 0)), lo) or not close(float(iset.get("DataMax", 0)), hi):
+                probs.append("reused directory: WTML rewritten from the returned description has DataMin/DataMax = %s/%s, full-resolution range %r/%r" % (iset.get("DataMin"), iset.get("DataMax"), lo, hi))
+    res = dict(counters=dict(pyramids=1, headers_checked=n, wtml_checked=1, writer_tile_fits=1, tile_fits_reuse_calls=reuses), nontrivial=True, sample=dict(spec=spec, depth=depth, root_range=[lo, hi]))
     if probs:
         res.update(status="violation", key="data-range:tile_fits", detail="; ".join(probs[:6]))
     return res
